@@ -234,7 +234,8 @@ func (commander *Commander) SaveMeta(ctx context.Context, parameters Parameters,
 	if err != nil {
 		return err
 	}
-	if _, ok := chainedLog.Data.(ledger.SetMetadataLogPayload); !ok {
+	payload, ok := chainedLog.Data.(ledger.SetMetadataLogPayload)
+	if !ok {
 		// the idempotency key belongs to a write of another kind
 		return NewErrConflict()
 	}
@@ -243,7 +244,9 @@ func (commander *Commander) SaveMeta(ctx context.Context, parameters Parameters,
 		return nil
 	}
 
-	commander.monitor.SavedMetadata(ctx, targetType, fmt.Sprint(targetID), m)
+	// when the idempotency key was already used, the log is the stored one:
+	// the event describes what that log holds, not what this request carries
+	commander.monitor.SavedMetadata(ctx, payload.TargetType, fmt.Sprint(payload.TargetID), payload.Metadata)
 	return nil
 }
 
@@ -285,6 +288,11 @@ func (commander *Commander) RevertTransaction(ctx context.Context, parameters Pa
 	payload, ok := log.Data.(ledger.RevertedTransactionLogPayload)
 	if !ok {
 		// the idempotency key belongs to a write of another kind
+		return nil, NewErrConflict()
+	}
+	if payload.RevertedTransactionID.Cmp(transactionToRevert.ID) != 0 {
+		// the idempotency key belongs to the revert of another transaction:
+		// nothing was written for this one
 		return nil, NewErrConflict()
 	}
 
@@ -364,7 +372,8 @@ func (commander *Commander) DeleteMetadata(ctx context.Context, parameters Param
 	if err != nil {
 		return err
 	}
-	if _, ok := chainedLog.Data.(ledger.DeleteMetadataLogPayload); !ok {
+	payload, ok := chainedLog.Data.(ledger.DeleteMetadataLogPayload)
+	if !ok {
 		// the idempotency key belongs to a write of another kind
 		return NewErrConflict()
 	}
@@ -373,7 +382,8 @@ func (commander *Commander) DeleteMetadata(ctx context.Context, parameters Param
 		return nil
 	}
 
-	commander.monitor.DeletedMetadata(ctx, targetType, targetID, key)
+	// as for SaveMeta: the event describes the log that is stored
+	commander.monitor.DeletedMetadata(ctx, payload.TargetType, payload.TargetID, payload.Key)
 
 	return nil
 }
